@@ -111,7 +111,16 @@ func check(c Case) (o h.Outcome) {
 		if e == nil {
 			return true
 		}
-		ok := o.Guarded("ConvertErrors("+what+")", func() { _ = openapi3filter.ConvertErrors(e) })
+		ok := o.Guarded("ConvertErrors("+what+")", func() {
+			if ce := openapi3filter.ConvertErrors(e); ce != nil {
+				_ = ce.Error()
+			}
+		})
+		if ok {
+			ok = o.Guarded("ValidationErrorEncoder.Encode("+what+")", func() {
+				(&openapi3filter.ValidationErrorEncoder{Encoder: openapi3filter.DefaultErrorEncoder}).Encode(context.Background(), e, httptest.NewRecorder())
+			})
+		}
 		if ok {
 			ok = o.Guarded("Error()("+what+")", func() { _ = e.Error() })
 		}
